@@ -68,16 +68,15 @@ def jobs(tier):
         out += vv(D, "BsAs", VV_QUICK, ulist=2, ulab=2, n3_nm=0, n2_aop=[0], n2_aggop=0)
         return out
     if tier == "dev":
-        # development sweep: every skeleton family with small bounds
-        out += vv(D, "BAss", VV_QUICK, ulist=2, ulab=2, n2_nm=0, n1_aop=[0, 1], n1_aggop=0)
-        out += vv(D, "BAss", VV_QUICK, ulist=2, ulab=2, n2_nm=0, n1_aop=2, n1_cvl=[0, 2])
-        out += vv(D, "BsAs", VV_QUICK, ulist=2, ulab=2, n3_nm=0, n2_aop=1, n2_aggop=0)
-        out += vv(D, "BsAs", VV_QUICK, ulist=2, ulab=2, n3_nm=0, n2_aop=2, n2_cvl=[0, 2])
-        out += vv(D, "BsFs", VV_QUICK, ulist=2, ulab=2, n2_fn=[0, 1], n2_fnalt=0)
-        out += vv(D, "BsFs", VV_QUICK, ulist=2, ulab=2, n2_fn=2, n2_fnalt=0, n2_dst=[0, 2])
-        out += vv(D, "BFss", VV_QUICK, ulist=2, ulab=2, n1_fn=[0, 1], n1_fnalt=0)
-        out += vv(D, "BFss", VV_QUICK, ulist=2, ulab=2, n1_fn=2, n1_fnalt=0, n1_dst=[0, 2])
-        return out
+        # development sweep
+        out += expand(D, "Bvn", n0_op=[1, 2], n0_cmp=[0, 1, 2, 3, 4, 5])
+        out += expand(D, "Bnv", n0_op=[1, 2], n0_cmp=[0, 1, 2, 3, 4, 5])
+        out += expand(D, "Bvn", n0_op=[0], n0_arith=[0, 1, 2, 3, 4, 5, 6])
+        out += expand(D, "Bsn", n0_op=[0, 1, 2])
+        out += expand(D, "Bns", n0_op=[0, 1, 2])
+        out += vv(D, "Bvv", VV)
+        out += vv(D, "Bvs", VV_QUICK, ulist=2, ulab=2)
+        out += vv(D, "Bsv", VV_QUICK, ulist=2, ulab=2)
     return out
 
 
